@@ -48,3 +48,18 @@ func init() {
 		NotCovered:  "validity of free-form payload encoding (encoding/json), byte-identity across runs as an observed fact, duplicate keys arising from case-insensitive matching in encoding/json's decoder",
 	})
 }
+
+func init() {
+	registerProperty(&Property{
+		ID:    "C14",
+		Rules: []string{"gob-shapes", "gob-proxy-symmetry", "gob-via-json"},
+		Explanation: "Which Go shapes gob cannot carry is a property of types: gob-shapes walks the type graph from the types the property names exactly as encoding/gob does (exported fields, through pointers, slices, maps and embedded structs; at a type with GobEncode it continues from the proxy value that body hands to the encoder, method-less aliases included) and reports every position of a lossy shape with a JSON-visible effect: L1 pointer to a basic type (pointed-to zero omitted, comes back nil), L2 interface{} position (empty container comes back nil), L4 struct with only unexported state and no codec; and checks the gob.Register calls. gob-proxy-symmetry checks every GobEncode/GobDecode pair: same proxy type, every receiver component covered on both sides, every proxy field set and consumed, and the nil / empty / non-empty security states distinguished on both sides. gob-via-json reduces Ref's gob law to its JSON law.",
+		NotCovered:  "equality of values after transport; L3 (nil-versus-empty slices whose difference is JSON-visible) beyond the security padding codec; behaviour of encoding/gob itself",
+	})
+	registerProperty(&Property{
+		ID:    "C13",
+		Rules: []string{"ref-key", "gob-via-json", "ref-opaque"},
+		Explanation: "Canonicalisation and classification live in jsonreference and net/url (trusted). Decided, as necessary conditions of the JSON/gob half: writer and reader of $ref use the same member name and Ref.MarshalJSON's constant outputs parse (at analysis time) to {} or an object with exactly that member (ref-key); Ref's gob codec wraps its JSON codec and propagates every error (gob-via-json); no function of the package stores into jsonreference.Ref's classification flags or builds one by literal, and every spec.Ref literal wraps a parsed reference, so classification stays a function of the parsed text (ref-opaque).",
+		NotCovered:  "idempotence of canonicalisation, equality of decoded references, classification correctness: all value-level inside jsonreference/net/url",
+	})
+}
